@@ -350,7 +350,7 @@ impl Aml for MemorySideCache {
         sink.qword(self.cache_size);
         sink.dword(self.attributes);
         sink.word(0); // reserved
-        sink.word(self.smbios_handles.len() as u16);
+        sink.word(u16::try_from(self.smbios_handles.len()).unwrap());
         for handle in &self.smbios_handles {
             sink.word(*handle);
         }
